@@ -676,6 +676,142 @@ func main() {
 			res.Count("codec:hex", fmt.Sprintf("%d/hexrt", inst), true)
 		}
 
+		// ---- hex TEXT entry points (SetHexString of Signature / Pubkey / Seckey / ID): common.Hex2Bytes drops the
+		// hex.DecodeString error and returns the bytes decoded so far, big.Int.SetString's failure flag was dropped
+		if inst < 3 || thorough {
+			isHexDigits := func(t string) bool {
+				if len(t) == 0 {
+					return false
+				}
+				for _, c := range []byte(t) {
+					if !(('0' <= c && c <= '9') || ('a' <= c && c <= 'f') || ('A' <= c && c <= 'F')) {
+						return false
+					}
+				}
+				return true
+			}
+			type tv struct{ class, text string }
+			variants := func(h string) []tv {
+				k := 2 * (1 + rng.Intn(len(h)/2-2))
+				return []tv{
+					{"honest", "0x" + h}, {"uppercase", "0x" + strings.ToUpper(h)},
+					{"trailing-nibble", "0x" + h + "0"}, {"trailing-junk", "0x" + h + "zz"}, {"trailing-byte", "0x" + h + "00"},
+					{"trailing-space", "0x" + h + " "}, {"embedded-junk", "0x" + h[:k] + "zz" + h[k+2:]},
+					{"prefix-0X", "0X" + h}, {"prefix-double", "0x0x" + h}, {"prefix-missing", h},
+					{"short-odd", "0x" + h[:len(h)-1]}, {"leading-space", "0x " + h}, {"only-prefix", "0x"}, {"empty", ""},
+					{"junk-then-honest", "0xzz" + h}, {"sign", "0x-" + h}, {"plus", "0x+" + h}, {"underscore", "0x" + h[:k] + "_" + h[k:]},
+				}
+			}
+			// signatures
+			for _, v := range variants(hexs(hb)) {
+				var e error
+				var ok bool
+				pan := ""
+				func() {
+					defer func() {
+						if r := recover(); r != nil {
+							pan = fmt.Sprint(r)
+						}
+					}()
+					var sg groupsig.Signature
+					e = sg.SetHexString(v.text)
+					ok = groupsig.VerifySig(*pk, msg, sg)
+				}()
+				id := fmt.Sprintf("%d/sigtext/%s", inst, v.text)
+				in := map[string]interface{}{"kind": "signature-hex-text", "class": v.class, "text": v.text, "honest_sig": hexs(hb), "pk": hexs(pkb), "msg": hexs(msg), "sk": skv.String()}
+				if pan != "" {
+					res.Count("text:sig:"+v.class+":panic", id, true)
+					viol("C14/panic:sethexstring", "Signature.SetHexString/VerifySig panicked: "+pan, in)
+					continue
+				}
+				res.Count(fmt.Sprintf("text:sig:%s:err=%v,accepted=%v", v.class, e != nil, ok), id, true)
+				clean := strings.HasPrefix(v.text, "0x") && len(v.text) == 2+128 && isHexDigits(v.text[2:])
+				same := clean && strings.EqualFold(v.text[2:], hexs(hb))
+				if ok != same || (e == nil) != same {
+					viol("C14/hex-text:signature:"+v.class, "Signature.SetHexString accepts (or VerifySig verifies) a text that is not the signature's hex encoding, or refuses the honest one", in)
+				}
+				cs.Add(fmt.Sprintf("(TextSig %s %s %s %s)", hx.CoqHex(hb), hx.CoqStr(v.text), hx.CoqBool(e != nil), hx.CoqBool(ok)), in)
+			}
+			// public keys
+			for _, v := range variants(hexs(pkb)) {
+				var e error
+				var ok bool
+				pan := ""
+				func() {
+					defer func() {
+						if r := recover(); r != nil {
+							pan = fmt.Sprint(r)
+						}
+					}()
+					var pp groupsig.Pubkey
+					e = pp.SetHexString(v.text)
+					ok = e == nil && groupsig.VerifySig(pp, msg, sig)
+				}()
+				id := fmt.Sprintf("%d/pktext/%s", inst, v.text)
+				in := map[string]interface{}{"kind": "pubkey-hex-text", "class": v.class, "text": v.text, "pk": hexs(pkb), "msg": hexs(msg)}
+				if pan != "" {
+					res.Count("text:pk:"+v.class+":panic", id, true)
+					viol("C14/panic:sethexstring-pubkey", "Pubkey.SetHexString/VerifySig panicked: "+pan, in)
+					continue
+				}
+				res.Count(fmt.Sprintf("text:pk:%s:err=%v,accepted=%v", v.class, e != nil, ok), id, true)
+				clean := strings.HasPrefix(v.text, "0x") && len(v.text) == 2+256 && isHexDigits(v.text[2:])
+				same := clean && strings.EqualFold(v.text[2:], hexs(pkb))
+				if ok != same || (e == nil) != same {
+					viol("C14/hex-text:pubkey:"+v.class, "Pubkey.SetHexString accepts a text that is not the key's hex encoding, or refuses the honest one", in)
+				}
+				cs.Add(fmt.Sprintf("(TextPk %s %s %s %s)", hx.CoqHex(pkb), hx.CoqStr(v.text), hx.CoqBool(e != nil), hx.CoqBool(ok)), in)
+			}
+			// secret keys and ids: value after SetHexString on a fresh variable
+			idv := new(big.Int).SetBytes(rng.Bytes(32))
+			var idd groupsig.ID
+			idd.SetBigInt(idv)
+			for kind, h := range map[string]string{"seckey": sk.GetHexString()[2:], "id": idd.GetHexString()[2:]} {
+				want := skv
+				if kind == "id" {
+					want = idv
+				}
+				for _, v := range variants(h) {
+					if v.class == "short-odd" || v.class == "trailing-nibble" || v.class == "trailing-byte" {
+						continue // a different number, legitimately
+					}
+					var e error
+					var got *big.Int
+					pan := ""
+					func() {
+						defer func() {
+							if r := recover(); r != nil {
+								pan = fmt.Sprint(r)
+							}
+						}()
+						if kind == "seckey" {
+							var x groupsig.Seckey
+							e = x.SetHexString(v.text)
+							got = x.GetBigInt()
+						} else {
+							var x groupsig.ID
+							e = x.SetHexString(v.text)
+							got = x.GetBigInt()
+						}
+					}()
+					id := fmt.Sprintf("%d/%stext/%s", inst, kind, v.text)
+					in := map[string]interface{}{"kind": kind + "-hex-text", "class": v.class, "text": v.text, "value": want.String()}
+					if pan != "" {
+						res.Count("text:"+kind+":"+v.class+":panic", id, true)
+						viol("C14/panic:sethexstring-"+kind, kind+" SetHexString panicked: "+pan, in)
+						continue
+					}
+					in["got"] = got.String()
+					res.Count(fmt.Sprintf("text:%s:%s:err=%v", kind, v.class, e != nil), id, true)
+					clean := strings.HasPrefix(v.text, "0x") && isHexDigits(v.text[2:])
+					if clean != (e == nil) || (clean && got.Cmp(want) != 0) || (!clean && got.Sign() != 0) {
+						viol("C14/hex-text:"+kind+":"+v.class, kind+".SetHexString returns no error for a text that is not a hex number (or sets a value from it), or mis-reads a clean one", in)
+					}
+					cs.Add(fmt.Sprintf("(TextScalar %s %s %s)", hx.CoqStr(v.text), hx.CoqBool(e != nil), zs(got)), in)
+				}
+			}
+		}
+
 		// ---- pairing samples: bilinearity and non-degeneracy
 		npair := 1
 		if thorough {
